@@ -213,9 +213,12 @@ directive @transform(op: String!) repeatable on FIELD
             }
         }
 
-        let schema = schema.expect("Schema definition was not present.");
-        let query_type_name =
-            schema.query.as_ref().expect("No query type was declared in the schema").node.as_ref();
+        let Some(schema) = schema else {
+            return Err(InvalidSchemaError::MissingSchemaDefinition);
+        };
+        let Some(query_type_name) = schema.query.as_ref().map(|name| name.node.as_ref()) else {
+            return Err(InvalidSchemaError::MissingQueryType);
+        };
         let query_type_definition = vertex_types
             .get(query_type_name)
             .expect("The query type set in the schema object was never defined.");
